@@ -108,6 +108,14 @@ def second(a, b):
     return b + 0 * a
 
 
+def weighted3(a, b, c):
+    return a + 2 * b + 4 * c
+
+
+def ign_mid(s, p, k):
+    return k * s + 0 * p
+
+
 # functions at the edge of the translatable subset: generation may refuse them, but whatever it emits must compute
 # what the function computes (each binds a name that is already bound, so dropping the statement stays translatable)
 def ann_rebind_fn(s, k):
